@@ -188,10 +188,14 @@ impl History {
                 let topic = *self.rng.pick(&["a", "ab", "t", ""]);
                 let ctx = self.usable();
                 let pad = *self.rng.pick(&[0usize, 0, 40, 9000, 20_000]);
-                let ttl = match self.rng.below(6) {
+                // (time:N with N far beyond the run: such a frame is an ordinary frame here, but code that treats
+                // TTL kinds differently on the write or remove path is exercised)
+                let ttl = match self.rng.below(9) {
                     0 => Some(TTL::Head(1)),
                     1 => Some(TTL::Head(2)),
                     2 => Some(TTL::Forever),
+                    3 => Some(TTL::Time(Duration::from_secs(3600))),
+                    4 => Some(TTL::Time(Duration::from_secs(864_000))),
                     _ => None,
                 };
                 let with_content = self.rng.chance(300);
